@@ -9,6 +9,13 @@ M  magnitudes  truthy entries and numeric options at 2^31, 2^53+1, 10^18, 2^64, 
 O  options     sweeps of max_iter over 0..N+2 (N = iterations of the uncut run) and of max_solutions over -2..k+2
 A  aliasing    one set of argument objects passed to consecutive calls with different options, in both orders; rows that
                are one shared list; `secondary` being the very object passed as `columns`
+W  work        (round 3) every internal loop driven past 2^7 .. 2^20 iterations at moderate input size, counts known by
+               construction: search() calls (infeasible parity gadget behind k binary blocks: exactly 6*2^k-1 calls and covers),
+               solutions recorded (2^13, 10164, 70520, 2^17), MRV scan / row ring / header rings over 4097 .. 100001 columns, column
+               rings over 2^20+1 rows, recursion depth 4097
+A2 in-place    (round 3) call, edit the caller's objects IN PLACE (cell, row, names incl. making two names equal, secondary), call
+               again on the same objects, compare with a fresh call on a deep copy
+X  floats      (round 3) entries / names / limits that are floats: 0.0, -0.0, nan, inf, 1e308, 5e-324, 33.0 vs 33, 2.5
 H  histories   an instrumented reference port of Algorithm X reports rare internal events; missing events are searched for
                by mutation; minimised witnesses per event live in corpus/C07/ev_*.json
 """
@@ -75,6 +82,17 @@ def _name_scheme(rng, n):
     return "reversed_positions", list(range(n - 1, -1, -1))
 
 
+def _dup_names(rng, n):
+    """Two or three columns carry the SAME name (identical, or equal across types: 1 / True / 1.0, 0 / False / -0.0)."""
+    groups = [[1, True, 1.0], [0, False, 0.0, -0.0], ["a", "a"], [[1, 2], [1, 2]], [None, None], [300, 300], [2.0**60, 2**60]]
+    names = ["u%d" % i for i in range(n)]
+    g = rng.choice(groups)
+    pos = rng.sample(range(n), min(n, rng.choice([2, 2, 3])))
+    for k, p in enumerate(pos):
+        names[p] = g[k % len(g)]
+    return names, g[0]
+
+
 def gen_labels(rng, gen_matrix):
     m, nc = _base(rng, gen_matrix, 1, 2)
     nc = min(nc, 8)
@@ -84,6 +102,21 @@ def gen_labels(rng, gen_matrix):
         sec = [x for x in pool if rng.random() < 0.3]
         rng.shuffle(sec)
         return _case(m, rng.choice([None, []]), sec or None, find_all=rng.random() < 0.8, family="L:default_names_eq_types")
+    r = rng.random()
+    if r < 0.15:
+        names, shared = _dup_names(rng, nc)
+        sec = [x for x in names if isinstance(x, str) and rng.random() < 0.3]
+        if rng.random() < 0.7:
+            sec.append(shared)  # names ALL the columns that carry an equal name
+        rng.shuffle(sec)
+        return _case(m, names, sec or None, find_all=rng.random() < 0.85, family="L:duplicate_names")
+    if r < 0.25:
+        pool = [1.0, 0.0, float("nan"), float("inf"), 1e308, 33.0, 0.5, -1e-300, 5e-324, float("-inf")]
+        rng.shuffle(pool)
+        names = pool[:nc]
+        sec = [x for x in names if rng.random() < 0.4] + [x for x in (1, 0, 33, 10**308) if rng.random() < 0.3]
+        rng.shuffle(sec)
+        return _case(m, names, sec or None, find_all=rng.random() < 0.85, family="X:float_names")
     scheme, names = _name_scheme(rng, nc)
     p = rng.choice([0.2, 0.4, 0.7])
     sec = [x for x in names if rng.random() < p]
@@ -199,6 +232,26 @@ def gen_magnitudes(rng, gen_matrix):
     return _case(m, None, sec, find_all=rng.random() < 0.75, max_solutions=ms, max_iter=mi, family="M")
 
 
+# ---------------------------------------------------------------- X: float extremes
+NAN, INF = float("nan"), float("inf")
+
+
+def gen_floats(rng, gen_matrix):
+    m, nc = _base(rng, gen_matrix, 1, 1)
+    truthy = [1.0, 33.0, NAN, INF, -INF, 1e308, -1e308, 5e-324, -1e-300, 2.0**60, -2.0**60, 1e-12, 0.1 + 0.2 - 0.3]
+    falsy = [0.0, -0.0, 0, False]
+    m = [[(rng.choice(truthy) if rng.random() < 0.7 else 1) if v else rng.choice(falsy) for v in row] for row in m]
+    lim_i = [INF, -INF, NAN, 10.0, 3.0, 2.5, 0.0, -0.0, 1e308, 0.5, -0.5, 1e-9, 25.0, 7.999999999]
+    lim_s = [INF, -INF, NAN, 1.0, 2.0, 2.5, 0.0, -0.0, 1e308, 0.5, -0.5, 5.0]
+    r = rng.random()
+    mi = rng.choice(lim_i) if r < 0.5 else None
+    ms = rng.choice(lim_s) if r > 0.35 else None
+    sec = [c for c in range(nc) if rng.random() < 0.25] or None
+    if sec and rng.random() < 0.5:
+        sec = [float(c) for c in sec]  # 1.0 names column 1
+    return _case(m, None, sec, find_all=rng.random() < 0.8, max_solutions=ms, max_iter=mi, family="X:floats")
+
+
 # ---------------------------------------------------------------- O: option sweeps
 def sweep_cases(base, uncut_iters, n_covers, cap=45):
     """All max_iter in 0..N+2 (both find_all settings) and all max_solutions in -2..k+2 for one instance."""
@@ -256,6 +309,69 @@ def sequence_check(case, rng, materialize, call_args, canon_result, options):
     return None
 
 
+# ---------------------------------------------------------------- A2: in-place edits between calls
+def inplace_check(case, rng, mk_label, call_args, canon_result, options, run_impl, oracle, steps=6):
+    """Call; edit the caller's matrix / columns / secondary objects in place; call again on the SAME objects; the answer must
+    equal that of a fresh call on newly built equal objects (and obey the property).  Returns None or (description, case)."""
+    cur = {k: copy.deepcopy(case[k]) for k in ("matrix", "columns", "secondary", "find_all", "max_solutions", "max_iter")}
+    nc = len(cur["matrix"][0])
+    M = [list(r) for r in cur["matrix"]]
+    cols = None if cur["columns"] is None else [mk_label(d) for d in cur["columns"]]
+    sec = None if cur["secondary"] is None else [mk_label(d) for d in cur["secondary"]]
+    live = (M, cols, sec)
+    for step in range(steps + 1):
+        got = canon_result(guarded(call_args, live, options(cur), timeout=5))
+        want, mut, nd = run_impl(cur)
+        if got != want:
+            return (f"after {step} in-place edit(s) of the caller's objects the call on the SAME objects gives {got}, a fresh "
+                    f"call on equal new objects gives {want}", cur)
+        bad = oracle(cur, want, mut, nd)
+        if bad:
+            return (f"after {step} in-place edit(s): {bad[1]}", cur)
+        k = rng.randrange(9)
+        nr = len(M)
+        if k == 0 and nr:  # flip one cell (lengths unchanged)
+            i, j = rng.randrange(nr), rng.randrange(nc)
+            v = 0 if M[i][j] else 1
+            M[i][j] = v
+            cur["matrix"][i][j] = v
+        elif k == 1 and nr:  # append a copy of a row / a random row
+            row = list(M[rng.randrange(nr)]) if rng.random() < 0.5 else [1 if rng.random() < 0.4 else 0 for _ in range(nc)]
+            M.append(list(row))
+            cur["matrix"].append(list(row))
+        elif k == 2 and nr > 1:  # delete a row
+            i = rng.randrange(nr)
+            del M[i]
+            del cur["matrix"][i]
+        elif k == 3 and nr:  # replace a row OBJECT (same length of the matrix)
+            i = rng.randrange(nr)
+            row = [1 if rng.random() < 0.4 else 0 for _ in range(nc)]
+            M[i] = list(row)
+            cur["matrix"][i] = list(row)
+        elif k == 4 and nr > 1:  # swap two rows
+            i, j = rng.randrange(nr), rng.randrange(nr)
+            M[i], M[j] = M[j], M[i]
+            cur["matrix"][i], cur["matrix"][j] = cur["matrix"][j], cur["matrix"][i]
+        elif k == 5 and cols and nc > 1:  # rename a column to the name of another one (duplicate names) or to a new name
+            i, j = rng.sample(range(nc), 2)
+            d = cur["columns"][j] if rng.random() < 0.6 else "new%d" % step
+            cur["columns"][i] = d
+            cols[i] = mk_label(d)
+        elif k == 6 and cols and nc > 1:  # swap two names
+            i, j = rng.sample(range(nc), 2)
+            cur["columns"][i], cur["columns"][j] = cur["columns"][j], cur["columns"][i]
+            cols[i], cols[j] = cols[j], cols[i]
+        elif k == 7 and sec is not None:  # one more secondary name
+            d = rng.choice(cur["columns"]) if cur["columns"] else rng.randrange(nc)
+            cur["secondary"].append(d)
+            sec.append(mk_label(d))
+        elif k == 8 and sec:  # one secondary name less
+            i = rng.randrange(len(sec))
+            del sec[i]
+            del cur["secondary"][i]
+    return None
+
+
 # ---------------------------------------------------------------- S: sizes, answers known by construction
 def _blocks(widths, dup):
     """Columns 0..n-1; column j has dup[j] identical rows covering exactly the block that contains j.  Blocks are
@@ -291,7 +407,8 @@ def size_instances(tier):
                 return f"expected {want} distinct single-row covers, got {len(o['sels'])} selections, status {o['status']}"
             st = "FEASIBLE" if ms and n >= ms else "OPTIMAL"
             return None if o["status"] == st and o["objective"] == want else f"status {o['status']} objective {o['objective']}, expected {st} {want}"
-        return (f"tall {n}x{cols} identical rows sec={sec} find_all={fa} max_solutions={ms}", build, check)
+        return (f"tall {n}x{cols} identical rows sec={sec} find_all={fa} max_solutions={ms}", build, check,
+                {"column_ring_rows": n, "build_rows": n})
 
     for n in (17, 65, 257, 801, 1025, 2049):
         inst.append(tall(n, 3, [1], True, None))
@@ -340,7 +457,8 @@ def size_instances(tier):
                 return "a cover is listed twice"
             st = "OPTIMAL" if not (fa and ms and total >= ms) else "FEASIBLE"
             return None if o["status"] == st else f"status {o['status']}, expected {st}"
-        return (name or f"{len(widths)} blocks, {dup[:4]}.. rows per block, find_all={fa} max_solutions={ms}", build, check)
+        return (name or f"{len(widths)} blocks, {dup[:4]}.. rows per block, find_all={fa} max_solutions={ms}", build, check,
+                {"recursion_depth": len(widths) + 1, "build_columns": sum(widths)})
 
     for d in (17, 65, 257, 801, 900, 1025, 2049):  # cover depth d (recursion depth d+1; > 1000 needed a fix in /repo)
         inst.append(blocks([1] * d, [1] * d, name=f"identity {d}: one cover of {d} rows"))
@@ -349,7 +467,73 @@ def size_instances(tier):
     inst.append(blocks([1] * 17, [2] * 17, name="17 blocks x 2 rows: 2^17 covers (search tree > 10^5 nodes)"))
     inst.append(blocks([1] * 40, [2] * 40, fa=True, ms=1000, name="40 blocks x 2 rows, max_solutions=1000 of 2^40"))
     inst.append(blocks([1] * 3, [40, 41, 43], name="3 blocks with 40,41,43 rows: 70520 covers"))
+    # ---- W: work volume of each internal loop (work[...] = the count reached, reported in the evidence)
+    def parity(k, dup):
+        """k binary blocks (2^k branches) in front of an infeasible gadget {ab, bc, ac} x dup: no cover; search() is called
+        exactly (2*dup+2)*2^k - 1 times and _cover exactly as often."""
+        def build():
+            n = k + 3
+            m = []
+            for b in range(k):
+                for _ in range(2):
+                    m.append([1 if c == b else 0 for c in range(n)])
+            for x, y in ((0, 1), (1, 2), (0, 2)):
+                for _ in range(dup):
+                    m.append([1 if c in (k + x, k + y) else 0 for c in range(n)])
+            return m, {"find_all": True}
+
+        want = (2 * dup + 2) * 2**k - 1
+
+        def check(o):
+            if o["kind"] != "done" or o["status"] != "INFEASIBLE" or o["sels"]:
+                return f"no cover exists, got {o.get('status', o)} with {len(o.get('sels', []))} selections"
+            if (o["iterations"], o["evaluations"]) != (want, want):
+                return f"iterations/evaluations {o['iterations']}/{o['evaluations']}, by construction {want}/{want}"
+            return None
+        return (f"W parity gadget behind {k} binary blocks (dup {dup}): infeasible, {want} search calls", build, check,
+                {"search_calls": want, "cover_calls": want})
+
+    for k in (5, 8, 9, 10, 12, 15):
+        inst.append(parity(k, 2))
+    inst.append(parity(18, 2) if tier != "thorough" else parity(20, 2))
+
+    def wide(n):
+        """Row 0 covers all n columns, row 1 all but the last: the MRV scan walks n headers and ends on the last column, the
+        row ring of row 0 has n nodes, selecting row 0 covers n columns; exactly one cover."""
+        def build():
+            return [[1] * n, [1] * (n - 1) + [0]], {"find_all": True}
+
+        def check(o):
+            if o["kind"] != "done" or o["status"] != "OPTIMAL" or o["sels"] != [[0]]:
+                return f"expected the single cover [0], got {o.get('status', o)} {o.get('sels', [])[:3]}"
+            return None if (o["iterations"], o["evaluations"]) == (2, n) else f"iterations/evaluations {o['iterations']}/{o['evaluations']}, by construction 2/{n}"
+        return (f"W wide 2x{n}: MRV scan / row ring / header ring of {n}", build, check,
+                {"mrv_scan_columns": n, "row_ring_nodes": n, "covers_per_row": n})
+
+    for n in (129, 1025, 2049, 4097, 10001, 100001):
+        inst.append(wide(n))
+
+    def deep_bytes(d):
+        def build():
+            m = []
+            for i in range(d):
+                b = bytearray(d)
+                b[i] = 1
+                m.append(b)
+            return m, {"find_all": True}
+
+        def check(o):
+            ok = o["kind"] == "done" and o["status"] == "OPTIMAL" and len(o["sels"]) == 1 and sorted(o["sels"][0]) == list(range(d))
+            return None if ok and o["iterations"] == d + 1 else f"identity {d}: expected the one cover and {d + 1} iterations, got {str(o)[:100]}"
+        return (f"W identity {d} (bytearray rows): recursion depth {d + 1}", build, check, {"recursion_depth": d + 1})
+
+    inst.append(deep_bytes(4097))
+    inst.append(blocks([1] * 13, [2] * 13, name="W 13 blocks x 2 rows: 8192 covers recorded"))
+    inst.append(blocks([1] * 3, [22, 22, 21], name="W 3 blocks with 22,22,21 rows: 10164 covers recorded"))
     if tier == "thorough":
+        inst.append(wide(2**20 + 1))
+        inst.append(deep_bytes(10001))
+        inst.append(blocks([1] * 2, [1025, 1025], name="W 2 blocks of 1025 rows: 1050625 covers recorded (> 2^20)"))
         inst.append(tall(262145, 1, None, True, 2))
         inst.append(tall(2**21 + 1, 1, None, False, None))
         inst.append(blocks([1] * 5000, [1] * 5000, fa=False, name="identity 5000: one cover of 5000 rows"))
